@@ -38,9 +38,10 @@ def run_scope(pid, tier):
             continue
         n_checked += 1
         bound = oracle["bound"]
-        if obs["accepted"] != (bound != []):
+        if obs["accepted"] != oracle["accept"]:
             res.violation(f"build {'succeeded' if obs['accepted'] else 'failed'} although the name "
-                          f"{'binds to ' + '::'.join(bound) if bound else 'is not visible from the module'}", payload(case, obs))
+                          f"{'binds to ' + '::'.join(bound) if bound else 'is not visible from the module'}"
+                          + (" (an enum over it needs the built-in integer type)" if oracle["en"] else ""), payload(case, obs))
             continue
         if not obs["accepted"]:
             continue
@@ -63,6 +64,15 @@ def run_scope(pid, tier):
         else:
             if g["args"][1]["ty"] != {"k": "cptr", "t": want} or g["ret"] != {"k": "mptr", "t": want}:
                 problems.append(f"g's parameter/return refer to {g['args'][1]['ty']} / {g['ret']}, expected {'::'.join(bound)}")
+        if oracle["shadowBound"]:
+            sn = proj_item(obs, ["a", "n"])
+            q = next((x for x in (sn or {}).get("fields", []) if x["name"] == "q"), None)
+            if q is None or q["ty"] != {"k": "raw", "p": oracle["shadowBound"]}:
+                problems.append(f"a::n.q refers to {q and q['ty']}; in module a the name denotes {'::'.join(oracle['shadowBound'])}")
+        if oracle["en"]:
+            ent = next((e for e in obs.get("reg", []) if e["path"] == ["m", "En"]), None)
+            if ent is None or ent["res"].get("size") != 2:
+                problems.append(f"enum En over the built-in u16 resolved with size {ent and ent['res'].get('size')}")
         mfile = next((f.get("proj") for f in obs.get("files", []) if f["rel"] == "m.rs"), None) or {}
         gx = next((e for e in mfile.get("evals", []) if e["name"] == "gx"), None)
         if gx is None:
